@@ -11,7 +11,7 @@ from sa.fd import Sym
 from sa.pm import FuncInfo, call_name, norm, self_attr, walk_local_ordered
 from sa.report import Ob, rule
 
-from .common import ob, strip_ret, traces
+from .common import find_locals, ob, strip_ret, traces, xnorm
 
 BRQ = 'zeroconf._services.browser.generate_service_query'
 INQ = 'zeroconf._services.info.ServiceInfo._add_question_with_known_answers'
@@ -105,6 +105,15 @@ def _bucket_once(ctx: Any, grp: FuncInfo) -> bool:
     return counts <= {0, 1} and 1 in counts
 
 
+def _browser_qu_local(g: FuncInfo) -> str:
+    """The local of the browser's query builder that says `ask QU`: assigned from a conditional on the question-type parameter."""
+    qt = g.params[4]
+    c = find_locals(g, lambda v: isinstance(v, ast.IfExp) and any(isinstance(x, ast.Name) and x.id == qt for x in ast.walk(v)))
+    if len(c) != 1:
+        raise AnalysisError(f'anchor vanished: QU decision local in {g.where()}')
+    return c[0]
+
+
 @rule('C13.HISTORY', 'D', expect_min=8)
 def history(ctx: Any) -> List[Ob]:
     """Duplicate-question suppression as a decision table over (QU?, history
@@ -145,9 +154,10 @@ def history(ctx: Any) -> List[Ob]:
     lp = [n for n in cfg.nodes if n.kind == 'for']
     if len(lp) != 1:
         raise AnalysisError('anchor vanished: type loop in generate_service_query')
+    quv = _browser_qu_local(g)
     for qu in (True, False):
         for sup in (True, False):
-            atoms = {'qu_question': qu, '.suppresses()': sup}
+            atoms = {quv: qu, '.suppresses()': sup}
             oc, und = fd.run_paths(prog, g.module, cfg, atoms, eff, start=lp[0], stop=lambda n: n is lp[0], loop_bound=1, for_iter=lambda n, e: True)
             got = {tuple(x for x in strip_ret(t)) for t in oc}
             want = ('ASK',) if qu else (('CONSULT',) if sup else ('CONSULT', 'ASK', 'RECORD'))
@@ -212,8 +222,10 @@ def qufirst(ctx: Any) -> List[Ob]:
     def qu_of(qt: Any, mc: bool) -> Any:
         res = set()
 
+        quv = _browser_qu_local(g)
+
         def eff(node: Any, evl: Any) -> List[Any]:
-            if node.kind == 'stmt' and isinstance(node.ast, ast.Assign) and isinstance(node.ast.targets[0], ast.Name) and node.ast.targets[0].id == 'qu_question':
+            if node.kind == 'stmt' and isinstance(node.ast, ast.Assign) and isinstance(node.ast.targets[0], ast.Name) and node.ast.targets[0].id == quv:
                 v = evl.ev(node.ast.value)
                 return [('QU', v if not isinstance(v, fd._Unknown) else 'UNKNOWN')]
             return []
@@ -254,21 +266,25 @@ def qufirst(ctx: Any) -> List[Ob]:
         return []
 
     cfg = cfg_of(rq.node)
-    asg = [n for n in cfg.nodes if n.kind == 'stmt' and isinstance(n.ast, ast.Assign) and isinstance(n.ast.targets[0], ast.Name) and n.ast.targets[0].id == 'this_question_type']
+    from .c18 import request_roles
+
+    roles = request_roles(ctx)
+    asg = [n for n in cfg.nodes if n.kind == 'stmt' and isinstance(n.ast, ast.Assign) and isinstance(n.ast.targets[0], ast.Name) and n.ast.targets[0].id == roles['qtype']]
     if len(asg) != 1:
-        raise AnalysisError('anchor vanished: this_question_type in async_request')
+        raise AnalysisError('anchor vanished: question type of the round in async_request')
     for forced in (None, QU, QM):
         for is_first in (True, False):
-            ev = fd.Evaluator(prog, rq.module, {p_qt: forced, 'first_request': is_first})
+            ev = fd.Evaluator(prog, rq.module, {p_qt: forced, roles['first']: is_first})
             v = ev.ev(asg[0].ast.value)
             want = (forced if forced is not None else QU) if is_first else QM
             obs.append(ob(R, rq, f'lookup: forced={forced} first={is_first}', f'question type is {want}', v == want, f'got {v}'))
     gq = prog.func('zeroconf._services.info.ServiceInfo._generate_request_query')
-    asg2 = [st for st in walk_local_ordered(gq.node) if isinstance(st, ast.Assign) and isinstance(st.targets[0], ast.Name) and st.targets[0].id == 'qu_question']
+    qv = {norm(c.args[1]) for c in walk_local_ordered(gq.node) if isinstance(c, ast.Call) and call_name(c) == '_add_question_with_known_answers' and len(c.args) > 1}
+    asg2 = [st for st in walk_local_ordered(gq.node) if isinstance(st, ast.Assign) and isinstance(st.targets[0], ast.Name) and len(qv) == 1 and st.targets[0].id in qv]
     ok2 = len(asg2) == 1 and isinstance(asg2[0].value, ast.Compare) and isinstance(asg2[0].value.ops[0], ast.Is) and norm(asg2[0].value.left) == gq.params[3] and fd.Evaluator(prog, gq.module, {}).ev(asg2[0].value.comparators[0]) == QU
     obs.append(ob(R, gq, asg2[0] if asg2 else 'qu_question', 'the lookup asks QU exactly when its question type is QU', ok2))
     # first_request is cleared after the first query
-    fr = [n for n in cfg.nodes if n.kind == 'stmt' and isinstance(n.ast, ast.Assign) and isinstance(n.ast.targets[0], ast.Name) and n.ast.targets[0].id == 'first_request' and norm(n.ast.value) == 'False']
+    fr = [n for n in cfg.nodes if n.kind == 'stmt' and isinstance(n.ast, ast.Assign) and isinstance(n.ast.targets[0], ast.Name) and n.ast.targets[0].id == roles['first'] and norm(n.ast.value) == 'False']
     gen = cfg.nodes_calling('_generate_request_query')
     obs.append(ob(R, rq, 'first_request = False', 'the first-request flag is cleared once a query was generated', bool(fr) and bool(gen) and all(cfg.dominates(g_, f_) for g_ in gen for f_ in fr)))
     return obs
@@ -287,14 +303,17 @@ def const(ctx: Any) -> List[Ob]:
     k = prog.const('zeroconf.const', '_DUPLICATE_QUESTION_INTERVAL')
     obs.append(ob(R, ('src/zeroconf/_services/info.py', '<module>'), f'{k} + min{tuple(iv)}', 'interval + minimum jitter is at least 1000 ms', k + min(iv) >= 1000 and k == 999))
     rq = prog.func('zeroconf._services.info.ServiceInfo.async_request')
-    nxt = [st for st in walk_local_ordered(rq.node) if isinstance(st, (ast.Assign, ast.AugAssign)) and norm(st.targets[0] if isinstance(st, ast.Assign) else st.target) == 'next_' and not (isinstance(st, ast.Assign) and norm(st.value) == 'now')]
+    from .c18 import request_roles
+
+    roles = request_roles(ctx)
+    nxt = [st for st in walk_local_ordered(rq.node) if isinstance(st, (ast.Assign, ast.AugAssign)) and norm(st.targets[0] if isinstance(st, ast.Assign) else st.target) == roles['next'] and not (isinstance(st, ast.Assign) and norm(st.value) == roles['now'])]
     texts = [norm(s) for s in nxt]
-    ok = len(nxt) == 2 and texts[0] == 'next_ = now + delay' and isinstance(nxt[1], ast.AugAssign) and isinstance(nxt[1].op, ast.Add) and isinstance(nxt[1].value, ast.Call) and call_name(nxt[1].value) == '_get_random_delay'
+    ok = len(nxt) == 2 and isinstance(nxt[0], ast.Assign) and isinstance(nxt[0].value, ast.BinOp) and isinstance(nxt[0].value.op, ast.Add) and {norm(nxt[0].value.left), norm(nxt[0].value.right)} == {roles['now'], roles['delay']} and isinstance(nxt[1], ast.AugAssign) and isinstance(nxt[1].op, ast.Add) and isinstance(nxt[1].value, ast.Call) and call_name(nxt[1].value) == '_get_random_delay'
     obs.append(ob(R, rq, '; '.join(texts), 'the next query time is now + delay + random jitter', ok))
     rd = prog.func('zeroconf._services.info.ServiceInfo._get_random_delay')
     c = [x for x in walk_local_ordered(rd.node) if isinstance(x, ast.Call) and call_name(x) == 'randint']
     obs.append(ob(R, rd, c[0] if c else 'randint', 'the jitter is drawn from the 20-120 ms interval', len(c) == 1 and isinstance(c[0].args[0], ast.Starred) and norm(c[0].args[0].value) == '_AVOID_SYNC_DELAY_RANDOM_INTERVAL' and tuple(iv) == (20, 120)))
-    raise_ = [n for n in walk_local_ordered(rq.node) if isinstance(n, ast.If) and 'QM_QUESTION' in norm(n.test) and any(isinstance(b, ast.Assign) and norm(b.targets[0]) == 'delay' and norm(b.value) == '_DUPLICATE_QUESTION_INTERVAL' for b in n.body)]
+    raise_ = [n for n in walk_local_ordered(rq.node) if isinstance(n, ast.If) and 'QM_QUESTION' in norm(n.test) and any(isinstance(b, ast.Assign) and norm(b.targets[0]) == roles['delay'] and norm(b.value) == '_DUPLICATE_QUESTION_INTERVAL' for b in n.body)]
     obs.append(ob(R, rq, raise_[0].test if raise_ else 'if this_question_type is QM_QUESTION and delay < ...', 'after a QM query the delay is raised to the duplicate-question interval', len(raise_) == 1))
     init_d = prog.func('zeroconf._services.info.ServiceInfo._get_initial_delay')
     obs.append(ob(R, init_d, 'return _LISTENER_TIME', 'the second query follows after 200 ms plus jitter', prog.const('zeroconf.const', '_LISTENER_TIME') == 200 and any(isinstance(r, ast.Return) and norm(r.value) == '_LISTENER_TIME' for r in walk_local_ordered(init_d.node))))
@@ -302,8 +321,10 @@ def const(ctx: Any) -> List[Ob]:
     rows = []
     for c in walk_local_ordered(gq.node):
         if isinstance(c, ast.Call) and call_name(c) == '_add_question_with_known_answers':
-            rows.append((prog.try_fold(gq.module, c.args[6])[1], norm(c.args[5]), norm(c.args[8])))
-    want = [(33, 'name', 'True'), (16, 'name', 'True'), (1, 'server', 'False'), (28, 'server', 'False')]
+            rows.append((prog.try_fold(gq.module, c.args[6])[1], xnorm(gq, c.args[5]), norm(c.args[8])))
+    me_g = gq.params[0]
+    inst, host = f'{me_g}._name', f'{me_g}.server or {me_g}._name'
+    want = [(33, inst, 'True'), (16, inst, 'True'), (1, host, 'False'), (28, host, 'False')]
     obs.append(ob(R, gq, f'questions: {rows}', 'SRV and TXT for the instance are omitted when already known; A and AAAA for the host are asked with their known answers', rows == want))
     return obs
 
